@@ -36,6 +36,12 @@ def table(pid, module, pkg, what, ref):
 
 CHECKS = {
  'C02': table('C02', 'Wire', 'wirefam', 'JSON-RPC conformance and survival on arbitrary inbound records: the verdict function of spec/Wire.tla (a transcription of the property statement, not of the Go code) is evaluated by TLC over all 15400 combinations of per-field variants; each cell is sent as a single object, inside arrays and in random batches to a real Server (AllowPush off and on) inside a synctest bubble; handler invocations and output records at quiescence are compared with the allowed outcome set, outputs are validated by an independent JSON-RPC response validator, and a liveness probe follows. Seeded mutations beyond the bound use the survival / valid-output oracle.', 'DESIGN.md §4 C02'),
+ 'C13': dict(technique='TLA+ reference function (spec/Wire.tla Flagged) table replay into ParseRequests + TLC trace validation of the message-grammar guard (ChanDiscipline, tag C13) on every Send event of the concurrent families + TLC-enumerated product (spec/Emit.tla) pushed through every emission path with a decode(encode(x)) = x oracle',
+        category='model_checking',
+        text='(a) ParseRequests is total, reports a top-level error exactly for invalid JSON, returns one entry per member in order and flags exactly the structurally invalid members, per the Wire table (model-based). '
+             '(b.i) every record handed to a channel in the server/client family workloads is one line and versioned (trace validation). '
+             '(b.ii) encode/decode fidelity is not something a TLA+ model illuminates: here TLC only enumerates the product of emission paths x method character classes (quotes, backslash, LF, TAB, NUL, DEL, HTML, U+2028, non-BMP, "rpc." ...) x value classes (absent, null, nested, big numbers, raw JSON with inner newlines/tabs, control characters, ...); each cell goes through the real Call/Batch/Notify/response/error response/push/callback/callback reply/Bridge path and the captured bytes are checked for UTF-8, no raw control byte, version, shape and JSON-equal round trip by the library parser and an independent decoder.',
+        ref='DESIGN.md §4 C13', note=TABLE_NOTE + ' For (b.ii) the level is honestly "other": combinatorial enumeration by TLC with a Go round-trip oracle.'),
  'C14': table('C14', 'Errors', 'errfam', 'Error classification from handler to caller: ErrorCode / ToWire / FromWire of spec/Errors.tla are evaluated by TLC over every error tree up to the bound (and the round-trip theorem is checked on the reference itself); each tree is built from the real constructors, returned by a real handler and observed through Call, CallResult, Batch and a server Callback: equal ErrorCode on both sides, exact context sentinels, *Error code/message/data unchanged (JSON-equal); all listed and seeded int32 codes; WithData receivers; unmarshalable results become error responses.', 'DESIGN.md §4 C14'),
  'C15': table('C15', 'HandlerAdapt', 'adaptfam', 'handler.Check/New/Wrap: the signature grammar (256 shapes; function types synthesised with reflect.FuncOf/MakeFunc) and the wrap decision tables of spec/HandlerAdapt.tla (struct-like parameter variants x SetStrict x AllowArray x params shapes; non-struct kinds) are evaluated by TLC and replayed: accepted / rejected, FuncInfo fields, called exactly once / not called with InvalidParams, never a panic, results and errors returned unchanged; the argument value is compared with what encoding/json decodes after an independent array-to-field translation.', 'DESIGN.md §4 C15'),
  'C16': table('C16', 'HandlerAdapt', 'adaptfam', 'handler.Positional/NewPos, Args, Obj: arities 1..6 x params shapes (exact / short / long / empty arrays, null or wrong element at every position, objects with all / some / unknown names, wrong types), name-list lengths, Args lengths and nil slots, Obj key sets, from the tables of spec/HandlerAdapt.tla; called with exactly the decoded values or InvalidParams without a call; untouched targets stay untouched.', 'DESIGN.md §4 C16'),
